@@ -8,13 +8,13 @@ use pkgsrc::plist::Plist;
 use serde_json::{json, Value};
 use std::os::unix::ffi::OsStrExt;
 
-const S1: [&[u8]; 33] = [
+const S1: [&[u8]; 36] = [
     b"f1", b"f2", b"+M", b"@ignore", b"@cwd /a", b"@cwd /b/", b"@cwd \xe9", b"@cwd /c\xe9/", b"@cwd rel", b"@exec e %D", b"@unexec u", b"@mode",
     b"@mode 0644", b"@owner o", b"@group g", b"@pkgdir d1", b"@dirrm d2", b"@comment c", b"@name n-1", b"@display msg",
     b"@pkgdep p>=1", b"@blddep b-[0-9]*", b"@pkgcfl x-*", b"@option preserve", b"@name n-2", b"@display other",
-    b"@owner", b"@group", b"@comment", b"/abs/f", b"@cwd /d//", b"@cwd //", b"@cwd /",
+    b"@owner", b"@group", b"@comment", b"/abs/f", b"@cwd /d//", b"@cwd //", b"@cwd /", b"@cwd .", b"@cwd ..", b"@cwd ./",
 ];
-const S2: [&[u8]; 7] = [b"f1", b"f2", b"@ignore", b"@cwd /a", b"@cwd /b/", b"@exec e", b"@comment c"];
+const S2: [&[u8]; 8] = [b"f1", b"f2", b"@ignore", b"@cwd /a", b"@cwd /b/", b"@exec e", b"@comment c", b"@cwd ."];
 
 fn got_views(p: &Plist) -> mp::Views {
     let entries: Vec<mp::Entry> = p.verif_entries().iter().map(plist_entry_model).collect();
@@ -127,10 +127,10 @@ fn main() {
         run.finish_replay(replay(doc), replay(doc));
     }
     run.rule(
-        "packing lists generated from entry-kind alphabets and parsed by the real parser: S1 = 33 \
+        "packing lists generated from entry-kind alphabets and parsed by the real parser: S1 = 36 \
          kinds (files, @ignore, three @cwd shapes incl. trailing '/' and non-UTF-8, every other \
-         command kind, two @name and two @display), all sequences of <= N1; S2 = 7 kinds (f1 f2 \
-         @ignore @cwd /a @cwd /b/ @exec @comment), all sequences of <= N2 (long ignore/file/cwd \
+         command kind, two @name and two @display), all sequences of <= N1; S2 = 8 kinds (f1 f2 \
+         @ignore @cwd /a @cwd /b/ @exec @comment '@cwd .'), all sequences of <= N2 (long ignore/file/cwd \
          interleavings). One reference fold over the known entry sequence yields all 12 views; \
          each real view must equal it, and the four file views must list the same files in the \
          same order (model-free). Non-trivial = lists containing both an @ignore and a file.",
@@ -138,7 +138,7 @@ fn main() {
     run.assume("reference fold: mc/core/src/model/plist.rs views(); install/uninstall lists compared by value with the expected sub-sequence of the entry sequence");
 
     let n1 = run.pick(4, 5);
-    run.bound(format!("S1: all {} sequences of <= {} entries over 33 kinds", seqs::count(S1.len(), n1), n1));
+    run.bound(format!("S1: all {} sequences of <= {} entries over 36 kinds", seqs::count(S1.len(), n1), n1));
     seqs::par_seqs(&run, "C15 S1", S1.len(), n1, 2, |_| false, |s, t| {
         let mut text = vec![];
         for i in s {
